@@ -123,6 +123,7 @@ func (f *Replace) Call(s *slip.Scope, args slip.List, depth int) (result slip.Ob
 	seq2 := seqToList(s, args[1], "sequence-2", start2, end2, depth)
 	switch seq1 := args[0].(type) {
 	case nil:
+		_ = f.checkStartEnd(s, start1, end1, 0, depth)
 	case slip.List:
 		end1 = f.checkStartEnd(s, start1, end1, len(seq1), depth)
 		// TBD check seq1 == seq2
